@@ -60,9 +60,10 @@ def run(chk, repo, tier):
     chk.rule("C08.R4", "prime_field_inv / secp256k1.inv: extended-Euclid invariant, inv0(0) = 0, termination", 10)
     chk.rule("C08.R5", "__pow__ returns self^other for every other ≥ 0 (loop invariant / induction schema)", 4 * 3)
     chk.rule("C08.R6", "no operator-dispatched recursion in __pow__ (C-stack depth = bit length of the exponent)", 4)
-    chk.not_decided += ["FQP.inv / poly_rounded_div / optimized_poly_rounded_div (data-dependent degrees): x·inv(x) = 1 and division "
-                        "by an extension-field element",
-                        "comparisons of an FQ with a foreign int compare the unreduced int (read as outside the statement)"]
+    chk.rule("C08.R8", "FQP.inv() of every extension class (degree 2 and 12): polynomial extended Euclid by loop schema — init, deg(), "
+                       "quotient cancels the leading term, step = (hm − lm·r, high − low·r, lm, low) without truncation loss on every "
+                       "pair of degrees, canonical storage of what deg() reads, exit value lm·inv0(low[0]), irreducible modulus", 8 * 9)
+    chk.not_decided += [                        "comparisons of an FQ with a foreign int compare the unreduced int (read as outside the statement)"]
     chk.assumptions += ["field objects handed to a constructor belong to the same modulus (FQ.__init__ copies val.n)",
                         "inv0(b) is the inverse of b for b ≢ 0: from the Euclid invariant (R4) with p prime (C07.R5)"]
     w = World(repo)
@@ -96,8 +97,13 @@ def run(chk, repo, tier):
     # ---- R4
     for q in ("py_ecc.utils.prime_field_inv", "py_ecc.secp256k1.secp256k1.inv"):
         f = repo.func(q)
-        for key, ok, det in check_euclid(w, f):
+        for key, ok, det in check_euclid(w, f, total=q.startswith("py_ecc.utils")):
             chk.ob("C08.R4", q, key, ok, det, f.where)
+    # ---- R8: polynomial Euclid of the extension classes
+    from ..polyeuclid import schema_obligations
+    ext = [q for q in CONCRETE if not q.endswith("_FQ")]
+    for q, key, ok, det, where in schema_obligations(repo, ext):
+        chk.ob("C08.R8", q, key, ok, det, where)
     # ---- R5 / R6
     pow_obligations(chk, repo, w)
     chk.note_analysed(field_classes=len(classes), operator_obligations=nres)
@@ -121,7 +127,8 @@ MANIFEST = {
     "text": "Decides for all elements and int operands of the 12 concrete prime/quadratic/degree-12 classes (plus synthetic dense "
             "moduli and other primes in the thorough tier): every operator's result is the quotient-ring result, stored "
             "reduced, in the operand's class — hence associativity, commutativity, distributivity, neutral elements and negation "
-            "are inherited; prime_field_inv is the inverse with inv0(0)=0; x**n = x^n for every n ≥ 0 by loop invariant, with "
+            "are inherited; prime_field_inv is the inverse with inv0(k·p)=0 for every multiple of p (zero test on the residue; an inverse helper the "
+            "operators call instead is held to the same contract at each call site); x**n = x^n for every n ≥ 0 by loop invariant, with "
             "no recursion depth proportional to the exponent. The polynomial-Euclid inv() is decided for the quadratic extensions "
             "(a·inv(a) = 1 on every path of the loop, inv(0) = 0, termination within the degree bound); for degree 12 it is not.",
     "note": "Trusted: evaluator model, checker's polynomial/tower arithmetic. p prime is C07.R5.",
